@@ -62,7 +62,7 @@ class CX(xrl.Xrl):
 
 class CJ(jxrl.JXrl):
     def _run(self, opcode, name, sig, args, mode, chunk=CHUNK):
-        return xrl.Xrl._run(self, opcode, name, sig, args, mode, chunk=CHUNK)
+        return jxrl.JXrl._run(self, opcode, name, sig, args, mode, chunk=CHUNK)
 
 
 # ---------------------------------------------------------------------------------------------- plans
